@@ -218,23 +218,20 @@ func (m *multiStreamListener) Acquire() (StreamListener, error) {
 		if err != nil {
 			return nil, err
 		}
-		m.ln = &TCPListener{ln}
-		m.acceptCh = make(chan acceptResponse)
+		sharedLn := &TCPListener{ln}
+		acceptCh := make(chan acceptResponse)
+		m.ln = sharedLn
+		m.acceptCh = acceptCh
+		// The goroutine serves the listener and channel it was started for. `m.ln` and
+		// `m.acceptCh` are replaced if the listener is acquired again after a full close.
 		go func() {
 			for {
-				m.mu.Lock()
-				ln := m.ln
-				m.mu.Unlock()
-
-				if ln == nil {
-					return
-				}
-				conn, err := ln.AcceptStream()
+				conn, err := sharedLn.AcceptStream()
 				if errors.Is(err, net.ErrClosed) {
-					close(m.acceptCh)
+					close(acceptCh)
 					return
 				}
-				m.acceptCh <- acceptResponse{conn, err}
+				acceptCh <- acceptResponse{conn, err}
 			}
 		}()
 	}
